@@ -10,3 +10,13 @@ package csv
 //@ func (*DatasourceExecuting).Run
 //@   assumes validT(Null) && validT(Int) && validT(Float) && validT(Boolean) && validT(String) && validT(Time) && forall(q, 0, len(d.fields), validT(d.fields[q].Type))
 //@   loop 4 step cell: cellFits(values[i], d.fields[i].Type)
+// C23 (csv): every row the decoder yields becomes exactly one record — not a retraction, one value per selected column;
+// an empty cell is NULL and a cell that is kept as text is the cell's text verbatim; a decoder error other than the end
+// of the file is returned, as is a produce error.
+//@   loop 3 invariant clean: !produceFailed() && len(OUTM) == 0
+//@   loop 3 step row: len(OUT) == old(len(OUT)) + 1 && !lastOut().Retraction && len(lastOut().Values) == len(indicesToRead) && len(OUTM) == old(len(OUTM))
+//@   loop 4 step empty: str == "" ==> values[i].TypeID == 0
+//@   loop 4 step text: values[i].TypeID == 4 ==> values[i].Str == str
+//@   loop 4 step textcell: str == row[columnIndex]
+//@   ensures nometa: len(OUTM) == 0
+//@   ensures produceerr: produceFailed() ==> result != nil
